@@ -145,7 +145,9 @@ def _run_part(arg: Tuple[str, str, str, int, int]) -> Dict[str, Any]:
         d["job"] = job.name
         d["part"] = part_idx
         d["fixed"] = fixed
-        return d
+        # results cross a process boundary: anything that does not survive JSON (a coroutine object returned as a
+        # run's value, an exception instance in a digest) is replaced by its repr
+        return json.loads(json.dumps(d, default=repr))
     except BaseException as e:  # noqa: BLE001
         return {"job": job_name, "part": part_idx, "status": "harness_error",
                 "error": "worker crashed: %r\n%s" % (e, traceback.format_exc())}
